@@ -154,11 +154,15 @@ func funcSubStrVec(chunk []KVPair, args []Expression, ctx *ExecuteCtx) ([]any, e
 		start := int(toInt(starts[i], 0))
 		length := int(toInt(lengths[i], 0))
 		vlen := len(val)
-		if start > vlen-1 {
+		if start < 0 || start > vlen-1 {
 			values[i] = ""
 		} else {
 			length = min(length, vlen-start)
-			values[i] = val[start:length]
+			if length < start {
+				values[i] = ""
+			} else {
+				values[i] = val[start:length]
+			}
 		}
 	}
 	return values, nil
